@@ -2,7 +2,7 @@
 import ast
 
 from .. import tables
-from ..events import calls_in, fi_of_term
+from ..events import bind_call, calls_in, fi_of_term
 from ..flow import get_flow, show, strip_sites, subterms
 from ..guards import GuardGraph, normal_succ
 from ..model import AnalysisError, first_line, src_of
@@ -946,83 +946,119 @@ def lambda_location(run, model, rule="C07.text"):
 def all_trace(run, model, rule="C06.all-trace"):
     """The tracing function generated for a failed ``all(<generator>)`` nests the clauses as the generator does.
 
-    The translation works inside-out (each step wraps the block built so far), so the ``for`` clauses and, per clause,
-    its ``if`` filters must be walked in *reverse*; the filters of a clause are wrapped before its ``for``.  Otherwise
+    The translation wraps the block built so far (inside-out), so the ``if`` filters of a clause must be walked in
+    *reverse* and are wrapped before the clause's ``for``; the ``for`` clauses themselves are either walked in reverse
+    (iterative form) or handled head-first by a function that first recurses on the tail (recursive form).  Otherwise
     a later filter runs on items an earlier filter excluded (and may fail), or the loops nest the wrong way round.
     """
-    fi = model.func("_recompute._translate_all_expression_to_a_module")
-    flow = get_flow(model, fi)
-    run.saw(flow)
-    GEN = ("param", fi.params[0])
-    GENS = ("attr", GEN, "generators")
-    loops = [(h, strip_sites(flow.term(p.ast, p))) for h in flow.cfg.nodes if h.kind == "next" for k, p in h.pred if p.kind == "iter" and p.stmt is h.stmt]
-    # wrapping statements:  N = [ast.X(..., body=N, ...)]
-    wraps = []
-    for n in flow.cfg.nodes:
-        if n.kind == "stmt" and isinstance(n.ast, ast.Assign) and len(n.ast.targets) == 1 and isinstance(n.ast.targets[0], ast.Name):
-            nm = n.ast.targets[0].id
-            for call in ast.walk(n.ast.value):
-                if isinstance(call, ast.Call) and any(kw.arg == "body" and isinstance(kw.value, ast.Name) and kw.value.id == nm for kw in call.keywords):
-                    ct = strip_sites(flow.term(call.func, n))
-                    def flat(t):
-                        if t[0] == "phi":
-                            return [y for x in t[1] for y in flat(x)]
-                        if t[0] == "op" and t[1] == "ifexp":
-                            return flat(t[2][1]) + flat(t[2][2])
-                        return [t]
+    root = model.func("_recompute._translate_all_expression_to_a_module")
+    # the root and the module-level helpers it reaches (a recursive helper is not inlined)
+    todo, funcs = [root], []
+    while todo:
+        fi = todo.pop()
+        if fi in funcs:
+            continue
+        funcs.append(fi)
+        fl = get_flow(model, fi)
+        for n in fl.cfg.nodes:
+            for call, c, a in calls_in(n):
+                cf = fi_of_term(model, fl.term(call.func, n))
+                if cf is not None and cf.module.name == "_recompute" and cf.cls is None and cf not in funcs:
+                    todo.append(cf)
 
-                    alts = flat(ct)
-                    kinds = set(a[2] if a[0] == "attr" and a[1] == ("module", "ast") else "?" for a in alts)
-                    wraps.append((n, call, kinds))
-    if_wraps = [w for w in wraps if w[2] == {"If"}]
-    for_wraps = [w for w in wraps if w[2] and w[2] <= {"For", "AsyncFor"}]
-    if not if_wraps or not for_wraps:
-        raise AnalysisError("%s: the inside-out construction (block = [ast.If/For(..., body=block)]) was not recognised" % fi.qual)
-    wrap_ids = set(id(n.ast) for n, call, kinds in for_wraps)
-    gen_loops = [(h, it) for h, it in loops if any(s == GENS for s in subterms(it)) and isinstance(h.stmt, ast.For) and any(id(sub) in wrap_ids for st in h.stmt.body for sub in ast.walk(st))]
-    bad = None
-    if len(gen_loops) != 1:
-        bad = (fi.node, "no single loop walks the `for` clauses of the generator")
-    else:
-        gh, git = gen_loops[0]
-        if not any(s == ("call", ("builtin", "reversed"), (GENS,), ()) for s in subterms(git)):
-            bad = (gh.stmt, "the block is built inside-out but the `for` clauses are walked front to back (%s): the loops of the tracing function nest the wrong way round" % show(git, 60))
-    run.check(bad is None, rule, fi.qual + ":for-clauses", "the `for` clauses are wrapped from the innermost outwards (reversed(generators))", bad[1] if bad else "", fi.loc(bad[0]) if bad else fi.loc(), None, "for-clauses")
-    if bad is not None:
-        return
-    inside = set(id(sub) for st in gh.stmt.body for sub in ast.walk(st))
-    if_loops = [(h, it) for h, it in loops if id(h.stmt) in inside and any(s[0] == "attr" and s[2] == "ifs" for s in subterms(it))]
-    bad = None
-    if len(if_loops) != 1:
-        bad = (gh.stmt, "no single loop walks the `if` filters of a clause")
-    else:
-        ih, iit = if_loops[0]
-        ifs = [s for s in subterms(iit) if s[0] == "attr" and s[2] == "ifs"][0]
-        if not any(s == ("call", ("builtin", "reversed"), (ifs,), ()) for s in subterms(iit)):
-            bad = (ih.stmt, "the filters of one `for` clause are wrapped front to back (%s): in the tracing function the LAST filter becomes the outermost test, so it is evaluated on items an earlier filter excludes" % show(iit, 60))
+    def flat(t):
+        if t[0] == "phi":
+            return [y for x in t[1] for y in flat(x)]
+        if t[0] == "op" and t[1] == "ifexp":
+            return flat(t[2][1]) + flat(t[2][2])
+        return [t]
+
+    found_if = found_for = 0
+    for fi in funcs:
+        flow = get_flow(model, fi)
+        run.saw(flow)
+        loops = [(h, strip_sites(flow.term(p.ast, p))) for h in flow.cfg.nodes if h.kind == "next" for k, p in h.pred if p.kind == "iter" and p.stmt is h.stmt]
+        wraps = []
+        for n in flow.cfg.nodes:
+            if n.kind in ("stmt", "return") and n.ast is not None:
+                val = n.ast.value if isinstance(n.ast, (ast.Assign, ast.Return)) else (n.ast if n.kind == "return" else None)
+                if val is None:
+                    continue
+                for call in ast.walk(val):
+                    if isinstance(call, ast.Call) and any(kw.arg == "body" and isinstance(kw.value, ast.Name) for kw in call.keywords):
+                        kinds = set(a[2] if a[0] == "attr" and a[1] == ("module", "ast") else "?" for a in flat(strip_sites(flow.term(call.func, n))))
+                        if kinds == {"If"} or (kinds and kinds <= {"For", "AsyncFor"}):
+                            wraps.append((n, call, kinds))
+        if_wraps = [w for w in wraps if w[2] == {"If"} and any(kw.arg == "test" and isinstance(kw.value, ast.Name) for kw in w[1].keywords)]
+        for_wraps = [w for w in wraps if w[2] <= {"For", "AsyncFor"}]
+        if not if_wraps and not for_wraps:
+            continue
+        dom = flow.cfg.dominators()
+        # ---- filters
+        bad = None
+        comp_of_ifs = None
+        if_loops = [(h, it) for h, it in loops if any(s_[0] == "attr" and s_[2] == "ifs" for s_ in subterms(it))]
+        if len(if_loops) != 1 or not if_wraps:
+            bad = (fi.node, "no single loop wraps the `if` filters of a clause around the block")
         else:
-            # the filter wrapped is the loop variable; it happens inside this loop
+            ih, iit = if_loops[0]
+            ifs = [s_ for s_ in subterms(iit) if s_[0] == "attr" and s_[2] == "ifs"][0]
+            comp_of_ifs = ifs[1]
             body_ids = set(id(sub) for st in ih.stmt.body for sub in ast.walk(st))
+            if not any(s_ == ("call", ("builtin", "reversed"), (ifs,), ()) for s_ in subterms(iit)):
+                bad = (ih.stmt, "the filters of one `for` clause are wrapped front to back (%s): the block is built inside-out, so the LAST filter becomes the outermost test of the tracing function and is evaluated on items an earlier filter excludes" % show(iit, 60))
             for n, call, kinds in if_wraps:
+                found_if += 1
                 if id(n.ast) not in body_ids:
-                    bad = (n.stmt, "an ast.If wrapper is built outside the loop over the filters")
+                    bad = bad or (n.stmt, "an ast.If wrapper is built outside the loop over the filters")
                 else:
-                    test = [kw.value for kw in call.keywords if kw.arg == "test"]
-                    if not test or strip_sites(flow.term(test[0], n)) != ("elem", iit):
-                        bad = (n.stmt, "the test of the generated `if` is not the filter of this step")
-            # filters first, then the `for` of the clause
-            dom = flow.cfg.dominators()
-            for n, call, kinds in for_wraps:
-                if id(n.ast) not in inside:
-                    bad = (n.stmt, "an ast.For wrapper is built outside the loop over the clauses")
-                elif id(n.ast) in body_ids or ih.id not in dom[n.id]:
-                    bad = (n.stmt, "the `for` of a clause is wrapped before its filters: the filters would run outside the loop that binds their variables")
-                else:
-                    kws = dict((kw.arg, strip_sites(flow.term(kw.value, n))) for kw in call.keywords if kw.arg in ("target", "iter"))
-                    comp = ifs[1]
-                    if kws.get("target") != ("attr", comp, "target") or kws.get("iter") != ("attr", comp, "iter"):
-                        bad = (n.stmt, "the generated loop does not take target and iterable from the clause being translated")
-    run.check(bad is None, rule, fi.qual + ":filters", "per clause: filters wrapped innermost-last (reversed(ifs)), then the clause's `for` around them", bad[1] if bad else "", fi.loc(bad[0]) if bad else fi.loc(), None, "filters")
+                    test = [kw.value for kw in call.keywords if kw.arg == "test"][0]
+                    if strip_sites(flow.term(test, n)) != ("elem", iit):
+                        bad = bad or (n.stmt, "the test of the generated `if` is not the filter of this step")
+        run.check(bad is None, rule, fi.qual + ":filters", "per clause the filters are wrapped innermost-last (reversed(ifs))", bad[1] if bad else "", fi.loc(bad[0]) if bad else fi.loc(), None, "filters")
+        # ---- for clauses
+        bad = None
+        if not for_wraps:
+            bad = (fi.node, "the `for` of a clause is not generated next to its filters")
+        for n, call, kinds in for_wraps:
+            found_for += 1
+            kws = dict((kw.arg, strip_sites(flow.term(kw.value, n))) for kw in call.keywords if kw.arg in ("target", "iter"))
+            if comp_of_ifs is None:
+                break
+            if kws.get("target") != ("attr", comp_of_ifs, "target") or kws.get("iter") != ("attr", comp_of_ifs, "iter"):
+                bad = (n.stmt, "the generated loop does not take target and iterable from the clause whose filters were just wrapped")
+            elif if_loops and (if_loops[0][0].id not in dom[n.id] or id(n.ast) in set(id(sub) for st in if_loops[0][0].stmt.body for sub in ast.walk(st))):
+                bad = (n.stmt, "the `for` of a clause is wrapped before its filters: the filters would run outside the loop that binds their variables")
+        if bad is None and comp_of_ifs is not None:
+            # where does the clause come from?
+            c = comp_of_ifs
+            if c[0] == "idx" and c[1][0] == "elem":
+                c = c[1]  # enumerate(...)[1]
+            if c[0] == "elem":
+                # iterative form: reversed(<generator>.generators)
+                its = c[1]
+                gens = [s_ for s_ in subterms(its) if s_[0] == "attr" and s_[2] == "generators"]
+                if not gens or not any(s_ == ("call", ("builtin", "reversed"), (gens[0],), ()) for s_ in subterms(its)):
+                    bad = (fi.node, "the block is built inside-out but the `for` clauses are walked front to back (%s): the loops of the tracing function nest the wrong way round" % show(its, 60))
+            elif c[0] == "idx" and c[2] == ("const", "0") and c[1][0] == "param":
+                # recursive form: the head clause is wrapped around the translation of the tail
+                p_ = c[1][1]
+                rec_ok = False
+                for n in flow.cfg.nodes:
+                    for call, cc, aa in calls_in(n):
+                        if fi_of_term(model, flow.term(call.func, n)) is fi:
+                            b = bind_call(fi, call) or {}
+                            if p_ in b and isinstance(b[p_], ast.Subscript) and isinstance(b[p_].slice, ast.Slice) and src_of(b[p_].slice) == "1:" and strip_sites(flow.term(b[p_].value, n)) == ("param", p_):
+                                # the recursion happens before the filters are wrapped
+                                if if_loops and n.id in dom[if_loops[0][0].id]:
+                                    rec_ok = True
+                if not rec_ok:
+                    bad = (fi.node, "the head clause is not wrapped around the translation of the remaining clauses (`%s[1:]`)" % p_)
+            else:
+                raise AnalysisError("%s: where the translated clause comes from was not recognised (%s)" % (fi.qual, show(c, 60)))
+        run.check(bad is None, rule, fi.qual + ":for-clauses", "the `for` of each clause encloses its filters and the inner clauses", bad[1] if bad else "", fi.loc(bad[0]) if bad else fi.loc(), None, "for-clauses")
+    if not found_if or not found_for:
+        raise AnalysisError("%s: the inside-out construction (block = [ast.If/For(..., body=block)]) was not recognised" % root.qual)
 
 
 def dispatch_closed(run, model, rule="C07.dispatch-closed"):
